@@ -658,7 +658,7 @@ pub(crate) fn rollback_on_drop(
     let payload_copy = payload.clone();
 
     match inner.link.flow_state.try_consume(1) {
-        Ok(_) => {
+        Ok(tag) => {
             let input_handle = match inner.link.input_handle.clone().ok_or(AmqpError::IllegalState)
             {
                 Ok(handle) => handle,
@@ -674,10 +674,8 @@ pub(crate) fn rollback_on_drop(
                 Some(handle) => handle.into(),
                 None => return,
             };
-            let tag = match inner.link.flow_state.state().lock.try_read() {
-                Some(inner) => inner.delivery_count.to_be_bytes(),
-                None => return,
-            };
+            // The tag that goes with the consumed credit; the delivery-count read back after
+            // the consumption is the tag of the *next* delivery on the link
             let delivery_tag = DeliveryTag::from(tag);
 
             let transfer = Transfer {
